@@ -45,6 +45,19 @@ type Engine struct {
 	fnIDs     map[*ssa.Function]int
 	addrTaken []*ssa.Function
 	candCache map[string][]*ssa.Function
+	faddrIDs  map[string]int
+}
+
+func (e *Engine) faddrUID(name string) int {
+	if e.faddrIDs == nil {
+		e.faddrIDs = map[string]int{}
+	}
+	if id, ok := e.faddrIDs[name]; ok {
+		return id
+	}
+	id := len(e.faddrIDs) + 1
+	e.faddrIDs[name] = id
+	return id
 }
 
 type nameT struct {
